@@ -435,3 +435,17 @@ func MapKeys[K ordered, V any](site string, m map[K]V) []K {
 	}
 	return keys
 }
+
+// RunDefault runs f as thread 0 of a controlled execution with the default
+// schedule (every scheduler choice 0): goroutines spawned through Go become
+// modelled threads, so a panic in one of them is an observation instead of a
+// process crash, and the order in which workers finish is fixed.
+func RunDefault(f func()) (panicMsg, deadlock string, steps int) {
+	var s *Sched
+	vx.Replay(nil, func(r *vx.Run) {
+		s = New(r, Delay)
+		s.Horizon = 5000000
+		s.Main(f)
+	})
+	return s.Panic, s.Deadlock, s.Steps
+}
